@@ -8,6 +8,7 @@ def handler(case):
     rels = [AliasRelation()]
     trace = []
     eff = []
+    ids = []
     for op in case["ops"]:
         if op[0] == "add":
             rels[op[1]].add(op[2], op[3])
@@ -27,7 +28,20 @@ def handler(case):
             it = sorted([c, sorted(a)] for c, a in r)
             snap.append({"q": per, "cv": sorted(r.canonical_variables), "iter": it})
         trace.append(snap)
-    return {"trace": trace, "effective": eff}
+        # identity of the set objects stored in _aliases: 0 = not a key, else numbered by first
+        # occurrence (relations in order, universe in order) — sharing within/between relations
+        seen = {}
+        step_ids = []
+        for r in rels:
+            row = []
+            for u in U:
+                if u in r._aliases:
+                    row.append(seen.setdefault(id(r._aliases[u]), len(seen) + 1))
+                else:
+                    row.append(0)
+            step_ids.append(row)
+        ids.append(step_ids)
+    return {"trace": trace, "effective": eff, "ids": ids}
 
 
 if __name__ == "__main__":
